@@ -141,6 +141,33 @@ static void enumProgram(uint64_t index, Program& p, std::vector<Op>& hist) {
   { Op o; o.kind = Op::Build; o.key = (int)n; hist.push_back(o); }
 }
 
+// C05 template family (case index >= 1000000): a key R reads a leaf D directly and reports it as discovered while D is also a declared
+// input of a sibling, so that D's task can be in flight for another consumer at the moment R completes; D was built (and stored)
+// before R ever ran. Variants: who requests D (a sibling P or the root itself), request order, a second leaf.
+static void c05Template(uint64_t v, Program& p, std::vector<Op>& hist) {
+  p = Program();
+  auto input = [&](const char* n) { KeyDef k; k.name = n; k.isInput = true; p.keys.push_back(k); return (int)p.keys.size() - 1; };
+  int D = input("D"), X = input("X"), E = input("E");
+  KeyDef R; R.name = "R"; R.statics.push_back({X, Normal}); R.leafCandidates = {D}; R.discoverCount = 1;
+  if (v & 4) { R.leafCandidates.push_back(E); R.discoverCount = 2; }
+  KeyDef P; P.name = "P"; P.statics.push_back({D, Normal});
+  int iR, iP;
+  if (v & 1) { p.keys.push_back(R); iR = (int)p.keys.size() - 1; p.keys.push_back(P); iP = (int)p.keys.size() - 1; }
+  else { p.keys.push_back(P); iP = (int)p.keys.size() - 1; p.keys.push_back(R); iR = (int)p.keys.size() - 1; }
+  KeyDef T; T.name = "T";
+  if (v & 2) { T.statics.push_back({iP, Normal}); T.statics.push_back({iR, Normal}); }
+  else { T.statics.push_back({iR, Normal}); T.statics.push_back({D, Normal}); T.statics.push_back({iP, Normal}); }
+  p.keys.push_back(T); int iT = (int)p.keys.size() - 1;
+  hist.clear();
+  auto build = [&](int k) { Op o; o.kind = Op::Build; o.key = k; hist.push_back(o); };
+  auto set = [&](int k, const char* val) { Op o; o.kind = Op::Set; o.key = k; o.val = val; hist.push_back(o); };
+  build(iP);            // D and P are stored; R has never run
+  set(D, "1");
+  build(iT);            // R runs for the first time and discovers D, which is being recomputed for P (or T)
+  set(X, "2");
+  build(iT);
+}
+
 struct EngineBox {  // one engine instance (+ its front end)
   std::unique_ptr<EngineFront> front;
 };
@@ -229,6 +256,7 @@ static CaseResult runCase(const CaseSpec& spec, bool thorough) {
   if (tiny) { size_t nb = 0, cut = hist.size(); for (size_t i = 0; i < hist.size(); ++i) if (hist[i].kind == Op::Build && ++nb == 3) { cut = i + 1; break; } hist.resize(cut); }
   bool useDB = r.chance(1, 2) || spec.profile == "c03" || spec.profile == "c04";
   if (spec.profile == "c07e") { enumProgram(spec.index, prog, hist); useDB = (spec.index & 1) != 0; }
+  if (spec.profile == "c05" && spec.index >= 1000000) { c05Template(spec.index - 1000000, prog, hist); useDB = true; }
   uint32_t clientVersion = 1 + (uint32_t)r.below(5);
   vf::Rng sr(spec.schedSeed ? spec.schedSeed : r.next());
   res.programDesc = describe(prog); res.historyDesc = histStr(hist) + (useDB ? "[db]" : "[nodb]");
@@ -578,7 +606,7 @@ int main(int argc, char** argv) {
         else for (uint64_t q = 0; q < cancelPointsPerBuild; ++q) points.push_back((long)pr.below(L));
         for (long stp : points) {
           for (int ac = 0; ac < 4; ++ac) {
-            if (!thorough && (int)((stp + b) & 3) != ac) continue;   // quick: rotate through the four continuations
+            if (!thorough && sbase.index < 1000000 && (int)((stp + b) & 3) != ac) continue;   // quick: rotate through the four continuations (the template family gets all four)
             CaseSpec sc = sbase; sc.cancelBuild = (int)b; sc.cancelStep = stp; sc.afterCancel = ac;
             gCurrentCase = specStr(sc); CaseResult rc = runCase(sc, thorough); t.add(rc); report(sc, rc, t); ++t.cancelPoints;
           }
